@@ -76,19 +76,28 @@ Tick == /\ Ticker /\ lpc = "select" /\ lpc' = "drainT" /\ quiescent' = FALSE
 
 DrainStep == /\ lpc \in {"drainF", "drainC", "drainT"}
              /\ IF q # <<>>
-                THEN /\ bufw' = Append(bufw, Head(q)) /\ q' = Tail(q) /\ UNCHANGED <<file, lpc>>
-                ELSE /\ file' = file \o bufw /\ bufw' = <<>> /\ UNCHANGED q
-                     /\ lpc' = CASE lpc = "drainF" -> "ack" [] lpc = "drainC" -> "ackC" [] OTHER -> "select"
+                THEN /\ bufw' = Append(bufw, Head(q)) /\ q' = Tail(q) /\ UNCHANGED lpc
+                ELSE \* the channel was seen empty: bufio.Flush starts; the disk may stall inside it while the
+                     \* producer keeps queueing (those items wait for the next flush)
+                     /\ lpc' = CASE lpc = "drainF" -> "flushF" [] lpc = "drainC" -> "flushC" [] OTHER -> "flushT"
+                     /\ UNCHANGED <<q, bufw>>
              /\ quiescent' = FALSE
              /\ act' = [a |-> "DrainStep"]
-             /\ UNCHANGED <<ppc, prec, ppart, nextRec, accepted, rejected, snap, nflush>>
+             /\ UNCHANGED <<file, ppc, prec, ppart, nextRec, accepted, rejected, snap, nflush>>
+
+FlushDone == /\ lpc \in {"flushF", "flushC", "flushT"}
+             /\ file' = file \o bufw /\ bufw' = <<>>
+             /\ lpc' = CASE lpc = "flushF" -> "ack" [] lpc = "flushC" -> "ackC" [] OTHER -> "select"
+             /\ quiescent' = FALSE
+             /\ act' = [a |-> "FlushDone"]
+             /\ UNCHANGED <<q, ppc, prec, ppart, nextRec, accepted, rejected, snap, nflush>>
 
 Spill == /\ bufw # <<>>                                                  \* bufio buffer full: oldest bytes reach the file
          /\ file' = Append(file, Head(bufw)) /\ bufw' = Tail(bufw) /\ quiescent' = FALSE
          /\ act' = [a |-> "Spill"]
          /\ UNCHANGED <<q, ppc, prec, ppart, nextRec, lpc, accepted, rejected, snap, nflush>>
 
-LoopNext == Take \/ Tick \/ DrainStep \/ Spill
+LoopNext == Take \/ Tick \/ DrainStep \/ FlushDone \/ Spill
 ProdNext == BeginWrite \/ WritePart \/ CallFlush \/ FlushReturn \/ CallClose \/ CloseReturn
 Next == LoopNext \/ ProdNext
 Spec == Init /\ [][Next]_vars
